@@ -38,6 +38,8 @@ def main():
                 sh('git -C /repo checkout -- .')
             rules = re.findall(r'^\s+rule=(\S+) fn=(.*?) site=(\S*) :: (.*)$', o, re.M)
             ids = sorted({r[0] for r in rules})
+            if 'first_run' not in meta and prop in meta.get('checks', {}):
+                meta['first_run'] = dict(exit=meta['checks'][prop].get('exit'), rules=meta['checks'][prop].get('rules', []))   # verdict when the seed arrived
             meta.setdefault('checks', {})[prop] = dict(exit=c, rules=ids, first=(rules[0][3][:200] if rules else ''))
             meta['detected_by_own_check'] = (c == 1 and bool(ids))
             json.dump(meta, open(mp, 'w'), indent=1)
